@@ -19,6 +19,8 @@ from gscrib.heightmaps import RasterHeightMap, SparseHeightMap
 
 PROP = "C19"
 LEVEL = "exploration"
+TECHNIQUE = 'direct recomputation from stored data + recording subclass observing every candidate sample of sample_path'
+LEVEL_TEXT = 'Held on random 8/16-bit images (array and PNG) and point sets (array and CSV/TSV), lines inside/crossing/outside; one listed known finding.'
 RULE = ("random 8/16-bit images (4x4 .. 64x48, mostly non-square, half of them loaded through from_path/PNG) "
         "and random point sets (4..60 points, non-collinear, half through from_path/CSV), scales and "
         "tolerances over three decades, queries at every stored sample, inside/outside the data, and 6 "
